@@ -1,0 +1,16 @@
+//go:build verif
+
+package client
+
+// Accessor for the verification harness (properties C03 and C04). Nothing in
+// this file changes the behaviour of the client.
+
+// VerifWatching reports whether Channel.Watch has installed the publisher of
+// the channel's watcher, i.e., whether states enabled from now on reach the
+// watcher.
+func (c *Channel) VerifWatching() bool {
+	c.machMtx.Lock()
+	defer c.machMtx.Unlock()
+	_, noop := c.statesPub.(noopStatesPub)
+	return !noop
+}
